@@ -32,6 +32,9 @@ def template(ctx: Ctx, f: FuncInfo, e: Optional[ast.AST], _depth: int = 0) -> Op
                     return None
                 sub = template(ctx, f, v.value, _depth + 1)
                 is_const = isinstance(v.value, ast.Name) and sub is not None and len(sub) == 1 and sub[0][0] == "lit"
+                if isinstance(v.value, ast.Attribute) and _class_const(ctx, f, v.value) is not None:
+                    out.append(("lit", _class_const(ctx, f, v.value)))
+                    continue
                 out += sub if sub is not None and isinstance(v.value, (ast.Name, ast.JoinedStr)) and (is_const or _is_str_local(ctx, f, v.value)) else [("expr", ctx.vals.canon(f, v.value))]
         return merge(out)
     if isinstance(e, ast.BinOp) and isinstance(e.op, ast.Add):
@@ -110,6 +113,33 @@ def template(ctx: Ctx, f: FuncInfo, e: Optional[ast.AST], _depth: int = 0) -> Op
         if ts and all(x is not None and x == ts[0] for x in ts) and not any(k == "expr" and v in ctx.an.scope(t).params for k, v in ts[0]):
             return ts[0]
     return [("expr", ctx.vals.canon(f, e))]
+
+
+def _class_const(ctx: Ctx, f: FuncInfo, e: ast.Attribute) -> Optional[str]:
+    """`self.NAME` / `cls.NAME` where NAME is assigned a string literal in the body of f's class (or a base class of the package) and
+    nowhere in the package is an attribute of that name assigned otherwise: that literal"""
+    sc = ctx.an.scope(f)
+    if not (isinstance(e.value, ast.Name) and e.value.id in (sc.selfname, "cls") and f.cls is not None):
+        return None
+    found = None
+    todo, seen = [f.cls], set()
+    while todo:
+        c = todo.pop()
+        if c.qual in seen:
+            continue
+        seen.add(c.qual)
+        for st in c.node.body:
+            tgt = st.targets[0] if isinstance(st, ast.Assign) and len(st.targets) == 1 else (st.target if isinstance(st, ast.AnnAssign) else None)
+            if isinstance(tgt, ast.Name) and tgt.id == e.attr and isinstance(getattr(st, "value", None), ast.Constant) and isinstance(st.value.value, str):
+                found = st.value.value if found is None else found
+        todo += [ctx.prog.classes[b] for b in c.bases if b in ctx.prog.classes]
+    if found is None:
+        return None
+    for m in ctx.prog.modules.values():
+        for x in ast.walk(m.tree):
+            if isinstance(x, ast.Attribute) and x.attr == e.attr and not isinstance(x.ctx, ast.Load):
+                return None
+    return found
 
 
 def _is_str_local(ctx: Ctx, f: FuncInfo, e: ast.AST) -> bool:
